@@ -66,8 +66,9 @@ class WrapperSpec(nfa.Spec):
 
 
 class LoopTimeout(nfa.Spec):
-    def __init__(self, fail_label):
-        self.fail_label = fail_label
+    def __init__(self, fail_label, helper=False):
+        self.fail_label = fail_label  # None: every error outcome must end the loop as failed (a helper has already decided)
+        self.helper = helper          # the reacting body is a helper: "carry on" means handing back Ok
         self.init = ("idle",)
 
     def step(self, st, label):
@@ -77,8 +78,14 @@ class LoopTimeout(nfa.Spec):
         ph = st[0]
         if ev in ("unwind", "cancel") or ev.startswith("pend:"):
             return st
+        if self.fail_label is None:
+            # the wrapper here is a helper that has already decided: its verdict must be looked at before anything else
+            if ev == "done:wrap":
+                return ("verdict",)
+            if ph == "verdict" and not (ev.startswith("sw:Res::") and src == "wrap") and (ev.startswith("call:") or ev.startswith("retval:") or ev == "ret"):
+                return nfa.Err("R11.3: the loop goes on (%s) without looking at the outcome of the helper that ran the task" % ev)
         if ev == "sw:Res::Err" and src == "wrap":
-            return ("timed_out",)
+            return ("timed_out",) if self.fail_label else ("must_fail",)
         if ev == "sw:Res::Ok" and src == "wrap":
             return ("idle",)
         if ph == "timed_out":
@@ -99,7 +106,7 @@ class LoopTimeout(nfa.Spec):
             if ev.startswith("call:"):
                 return nfa.Err("R11.3: lifecycle event %s on the timeout-failure path" % ev)
         if ph == "must_continue":
-            if ev == "call:next":
+            if ev == "call:next" or (self.helper and ev in ("retval:Ok", "ret")):
                 return ("idle",)
             if ev.startswith("call:") or ev.startswith("retval:") or ev == "ret":
                 return nfa.Err("R11.3: fail_on_timeout is not set but the loop does not carry on with the next message (%s)" % ev)
@@ -153,22 +160,35 @@ def run_cfg(ctx, fx):
         f = fx.fn(term)
         if not ctx.require(f is not None, "R11.1", "terminal:" + term, "terminal not found"):
             continue
-        wf = graph.wiring_fn(fx, term, lambda t: (t.get("callee") or "").endswith("::with_config")) or f
+        # the call that gives the environment its configuration: `.with_config(config)` or a constructor taking it
+        def takes_config(t):
+            return bool(t.get("callee_local")) and any(a == "environment::EnvironmentConfig" for a in t.get("argtys", [])) and (t.get("destty") or "").startswith("environment::Environment<")
+        wf = graph.wiring_fn(fx, term, takes_config) or f
         b = ctx.body(fx, wf)
-        wc = [t for _, t in b.normal_calls() if (t.get("callee") or "").endswith("::with_config")]
-        ok = len(wc) == 1 and all(x.kind == "arg" for x in roots(b, wc[0]["args"][1]))
+        wc = [t for _, t in b.normal_calls() if takes_config(t)]
+        ok = len(wc) == 1 and all(x.kind == "arg" for x in roots(b, wc[0]["args"][wc[0]["argtys"].index("environment::EnvironmentConfig")]))
         # and the configured environment is the one whose loop is created
         if ok:
             # ... directly (create_loop) or through one of the crate's own spawn entry points that take an environment
-            cl = [t for _, t in b.normal_calls() if (t.get("callee") or "").endswith("::create_loop") or ((t.get("callee_local") or t.get("resolved_local")) and any(a.startswith("environment::Environment<") for a in t.get("argtys", [])) and not (t.get("callee") or "").endswith("::with_config"))]
+            cl = [t for _, t in b.normal_calls() if (t.get("callee") or "").endswith("::create_loop") or ((t.get("callee_local") or t.get("resolved_local")) and any(a.startswith("environment::Environment<") for a in t.get("argtys", [])) and not takes_config(t))]
             ok = len(cl) == 1 and any(any(o.kind == "call" and b.call_at(o) is wc[0] for o in b.origins(a)) for a in cl[0]["args"])
         ctx.require(ok, "R11.1", "terminal:" + term.split("::", 2)[-1], "the terminal must run the loop of the environment configured with the builder's config", fn=term, site=f["loc"])
-    wcf = fx.fn("environment::Environment::<A, R>::with_config")
-    if ctx.require(wcf is not None, "R11.1", "with_config", "Environment::with_config not found"):
-        b = ctx.body(fx, wcf)
-        stores = b.partial.get(1, [])
-        ok = len(stores) == 1 and stores[0][2]["r"]["k"] == "use" and all(x.kind == "arg" and x.site == 2 for x in roots(b, stores[0][2]["r"]["o"])) and all(x.kind == "arg" and x.site == 1 for x in roots(b, {"k": "move", "p": [0]}) if not (x.proj and str(x.proj[0]).startswith("<part:")))
-        ctx.require(ok, "R11.1", "with_config", "with_config must store the given config", fn=wcf["def"], site=wcf["loc"])
+    # every function that is given a configuration for an environment stores exactly that configuration in it
+    takers = [g for g in fx.d["fns"] if g["kind"] in ("fn", "assoc_fn") and (g.get("output") or "").startswith("environment::Environment<") and any((i.get("ty") if isinstance(i, dict) else i) == "environment::EnvironmentConfig" for i in (g.get("inputs") or []))]
+    if ctx.require(len(takers) >= 1, "R11.1", "with_config", "no function gives an Environment its configuration"):
+        for wcf in takers:
+            b = ctx.body(fx, wcf)
+            cidx = [k for k, i in enumerate(wcf.get("inputs") or []) if (i.get("ty") if isinstance(i, dict) else i) == "environment::EnvironmentConfig"][0] + 1
+            stores = b.partial.get(1, [])
+            ok = len(stores) == 1 and stores[0][2]["r"]["k"] == "use" and all(x.kind == "arg" and x.site == cidx for x in roots(b, stores[0][2]["r"]["o"])) and all(x.kind == "arg" and x.site == 1 for x in roots(b, {"k": "move", "p": [0]}) if not (x.proj and str(x.proj[0]).startswith("<part:")))
+            if not ok:
+                # ... or builds the environment with it
+                for _b2, _s2, st2 in agg_sites(b, adt="environment::Environment"):
+                    fl = st2["r"].get("fields") or []
+                    if "config" in fl:
+                        o2 = st2["r"]["ops"][fl.index("config")]
+                        ok = all(x.kind == "arg" and x.site == cidx and not x.proj for x in b.origins(o2)) and bool(b.origins(o2))
+            ctx.require(ok, "R11.1", "with_config:" + wcf["def"].split("::")[-1], "%s must store the given config" % wcf["def"], fn=wcf["def"], site=wcf["loc"])
     # the plain loop
     plain = [(f, k) for f, k in loops.find_loops(fx) if k == "plain"]
     if not ctx.require(len(plain) == 1, "R11.1", "plain-loop", "plain loop not found"):
@@ -198,29 +218,103 @@ def run_cfg(ctx, fx):
                     cur = cfg_fields if cur[idx] == "config" else []
         return ".".join(names)
     paths = {i: cap_path(i) for i in range(len(caps or []))}
+    t_field = cfg_fields.index("timeout") if "timeout" in cfg_fields else -1
+    f_field = cfg_fields.index("fail_on_timeout") if "fail_on_timeout" in cfg_fields else -1
+    # where the configuration lives in the loop's captures: the two fields captured on their own, or the whole config
     t_idx = [i for i, p in paths.items() if p == "config.timeout"]
     f_idx = [i for i, p in paths.items() if p == "config.fail_on_timeout"]
-    if not ctx.require(len(t_idx) == 1 and len(f_idx) == 1, "R11.1", "loop-captures-config", "the plain loop must capture config.timeout and config.fail_on_timeout: captures %s" % paths, fn=lf["def"], site=lf["loc"], detail=paths):
+    c_idx = [i for i, p in paths.items() if p == "config"]
+    if not ctx.require((len(t_idx) == 1 and len(f_idx) == 1) or len(c_idx) == 1, "R11.1", "loop-captures-config", "the plain loop must capture config.timeout and config.fail_on_timeout (or the config): captures %s" % paths, fn=lf["def"], site=lf["loc"], detail=paths):
         return None
+
+    def is_cfg_field(body_, operand, field, bind):
+        """does this operand of body_ read Environment.config.<field>? bind: upvar index of body_ -> operand of the loop body
+        (None when body_ is the loop itself)"""
+        for r in body_.origins(operand):
+            if r.kind != "upvar":
+                return False
+            proj = [e for e in r.proj if e != "*" and not str(e).startswith("d")]
+            if bind is None:
+                base, rest = paths.get(r.site), proj
+            else:
+                lop = bind.get(r.site)
+                if lop is None:
+                    return False
+                lr = lb.origins(lop)
+                if len(lr) != 1 or next(iter(lr)).kind != "upvar":
+                    return False
+                l0 = next(iter(lr))
+                base, rest = paths.get(l0.site), [e for e in l0.proj if e != "*"] + proj
+            want_idx = t_field if field == "timeout" else f_field
+            if base == "config." + field and not [e for e in rest if not str(e).startswith("f0")] and field != "timeout":
+                continue
+            if base == "config." + field:
+                continue
+            if base == "config" and rest[:1] == ["f%d" % want_idx]:
+                continue
+            return False
+        return True
+    # the body that runs a task under the wrapper and reacts to its outcome: the loop itself, or a helper it awaits
+    rb_f, bind, hcall = lf, None, None
     wraps = [(bi, t) for bi, t in lb.normal_calls() if loops.local_wrapper(t)]
-    inv = [(bi, t) for bi, t, _ok in loops.task_invokes(fx, lb)]
+    if not wraps:
+        for g in loops.loop_family(fx, lf)[1:]:
+            if g["kind"] != "coroutine":
+                continue
+            gw = [(bi, t) for bi, t in ctx.body(fx, g).normal_calls() if loops.local_wrapper(t)]
+            if gw:
+                hc = [ht for _hb, ht in lb.normal_calls() if not (ht.get("callee") or "").endswith(("Future::poll", "poll_unpin")) and fx.callee_fn(ht) is not None and fx.callee_fn(ht)["def"] == g.get("parent")]
+                if len(hc) == 1:
+                    rb_f, hcall = g, hc[0]
+                    bind = {i: a for i, a in enumerate(hcall["args"])}
+                    wraps = gw
+                break
+    rb = ctx.body(fx, rb_f)
+    inv = [(bi, t) for bi, t, _ok in loops.task_invokes(fx, rb)]
     ok = len(wraps) == 1 and len(inv) == 1
     if ok:
         wt = wraps[0][1]
-        r0 = lb.origins(wt["args"][0])
-        r1 = roots(lb, wt["args"][1])
-        ok = all(o.kind == "call" and o.site == (inv[0][0],) for o in r0) and all(r.kind == "upvar" and r.site == t_idx[0] for r in r1)
-    ctx.require(ok, "R11.1", "every-task-through-wrapper", "every Task's handler future must be handed to the timeout wrapper together with the configured timeout", fn=lf["def"], site=wraps[0][1]["l"] if wraps else lf["loc"])
-    # R11.3
+        r0 = rb.origins(wt["args"][0])
+        ok = all(o.kind == "call" and o.site == (inv[0][0],) for o in r0) and is_cfg_field(rb, wt["args"][1], "timeout", bind)
+    ctx.require(ok, "R11.1", "every-task-through-wrapper", "every Task's handler future must be handed to the timeout wrapper together with the configured timeout", fn=rb_f["def"], site=wraps[0][1]["l"] if wraps else lf["loc"])
+    # R11.3 the reaction to the wrapper's outcome
     A = loops.lifecycle_alphabet()
     A.upvar_bools = True
-    n = nfa.build(lb, A, fx, depth=2)
-    viols, ps = nfa.check(n, LoopTimeout("bool:upvar%d" % f_idx[0]))
-    ctx.count_nfa(n.stats(), ps)
-    for v in viols:
-        ctx.viol("R11.3", "plain-loop", v["msg"], fn=lf["def"], site=lf["loc"], trace=v["trace"])
-    if not viols:
-        ctx.require(len(nfa.edges_labelled(n, "bool:upvar%d" % f_idx[0])) >= 2, "R11.3", "plain-loop", "the loop never branches on fail_on_timeout", fn=lf["def"], site=lf["loc"], detail={"product_states": ps})
+    n = nfa.build(rb, A, fx, depth=2)
+    # the label of a branch on fail_on_timeout in the reacting body
+    flag_labels = set()
+    for e_ in {lab for es in n.edges.values() for (lab, _d, _l) in es if lab and lab.startswith("bool:upvar")}:
+        nm = e_[len("bool:"):].rsplit("=", 1)[0]
+        up = int(nm[len("upvar"):].split(".")[0])
+        rest = nm.split(".")[1:]
+        if bind is None:
+            base = paths.get(up)
+        else:
+            lr = lb.origins(bind.get(up)) if bind.get(up) is not None else set()
+            l0 = next(iter(lr)) if len(lr) == 1 else None
+            base = paths.get(l0.site) if (l0 is not None and l0.kind == "upvar") else None
+            rest = ([e for e in l0.proj if e != "*"] if l0 is not None else []) + rest
+        if (base == "config.fail_on_timeout" and not rest) or (base == "config" and rest == ["f%d" % f_field]):
+            flag_labels.add("bool:" + nm)
+    if ctx.require(len(flag_labels) == 1, "R11.3", "plain-loop", "the reaction to a timeout never branches on fail_on_timeout (branches found: %s)" % sorted(flag_labels), fn=rb_f["def"], site=rb_f["loc"]):
+        fl = next(iter(flag_labels))
+        viols, ps = nfa.check(n, LoopTimeout(fl, helper=(rb_f is not lf)))
+        ctx.count_nfa(n.stats(), ps)
+        for v in viols:
+            ctx.viol("R11.3", "plain-loop", v["msg"], fn=rb_f["def"], site=rb_f["loc"], trace=v["trace"])
+        if not viols:
+            ctx.require(len(nfa.edges_labelled(n, fl)) >= 2, "R11.3", "plain-loop", "the loop never branches on fail_on_timeout", fn=rb_f["def"], site=rb_f["loc"], detail={"product_states": ps})
+    if rb_f is not lf:
+        # ... and the loop treats the helper's verdict as final: an error ends the actor as failed, Ok goes on with the next message
+        A2 = loops.lifecycle_alphabet()
+        A2.calls = [(l_, p_) for (l_, p_) in A2.calls if l_ != "wrap"] + [("wrap", lambda x, _h=hcall: x is _h)]
+        n2 = nfa.build(lb, A2)
+        v2, p2 = nfa.check(n2, LoopTimeout(None, helper=False))
+        ctx.count_nfa(n2.stats(), p2)
+        for v in v2:
+            ctx.viol("R11.3", "plain-loop:helper-verdict", v["msg"], fn=lf["def"], site=lf["loc"], trace=v["trace"])
+        if not v2:
+            ctx.ok("R11.3", "plain-loop:helper-verdict", lf["loc"], {"helper": rb_f["def"]})
     # R11.2 wrapper
     if wraps:
         wdef = wraps[0][1]["callee"]
